@@ -56,3 +56,33 @@ def ss_unlock_old():
 # ---- state.rs
 def st_header():
     return dict(ensures=[C("is", "res == spec_header(self.0)", "C07", "C06")])
+
+def st_tip_condition():
+    return dict(ensures=[C("rule", "res == spec_tip(self.network, self.height, activation.0)", "C20", "C17", char=True)])
+
+def st_tip(n):
+    return dict(ensures=[C("rule", f"res == spec_tip(self.network, self.height, {n})", "C20", "C17", char=True)])
+
+def ts_insert():
+    return dict(ensures=[C("exact", "final(self)@ == old(self)@.insert(spec_txhash(txn), txn)", "C02")])
+
+def ap_faucet_pseudocoin():
+    return dict(ensures=[C("id", "res == spec_marker(txhash)", "C19")])
+
+def ap_handle_faucet():
+    return dict(
+        requires=[C("wf", "old(state).coins.wf()"), C("inv", "spec_tip906(*old(state)) ==> counts_ok(old(state).coins@)")],
+        ensures=[
+            C("wf", "final(state).coins.wf() && (spec_tip906(*old(state)) ==> counts_ok(final(state).coins@))", "C20"),
+            C("frame", "same_but_coins(*final(state), *old(state))", "C19", "C05", "C17"),
+            C("not_faucet", "tx.kind != TxKind::Faucet ==> res is Ok && final(state).coins@ == old(state).coins@", "C19"),
+            C("mainnet", "tx.kind == TxKind::Faucet && old(state).network == NetID::Mainnet && !is_grandfathered(spec_txhash(*tx)) ==> res is Err && res->Err_0 is MalformedTx", "C19"),
+            C("duplicate", """tx.kind == TxKind::Faucet && !(old(state).network == NetID::Mainnet && !is_grandfathered(spec_txhash(*tx)))
+                   && old(state).coins@.coins.contains_key(spec_marker(spec_txhash(*tx))) ==> res is Err && res->Err_0 is DuplicateTx""", "C19"),
+            C("err_noop", "res is Err ==> final(state).coins@ == old(state).coins@", "C19", "C02"),
+            C("err_kinds", "res is Err ==> res->Err_0 is MalformedTx || res->Err_0 is DuplicateTx", "C19", char=True),
+            C("marker", """res is Ok && tx.kind == TxKind::Faucet && !is_grandfathered(spec_txhash(*tx)) ==>
+                   !old(state).coins@.coins.contains_key(spec_marker(spec_txhash(*tx)))
+                   && exists|m: CoinDataHeight| is_marker_cdh(m) && #[trigger] view_insert(old(state).coins@, spec_marker(spec_txhash(*tx)), m, spec_tip906(*old(state))) == final(state).coins@""", "C19"),
+            C("grandfathered", "res is Ok && tx.kind == TxKind::Faucet && is_grandfathered(spec_txhash(*tx)) ==> final(state).coins@ == old(state).coins@", "C19", char=True),
+        ])
